@@ -10,6 +10,10 @@ Decided (structural):
         live seal context for the same channel cannot be created) and builds a context only on Some.
  R4 K10 SealCtx (both states) and Loan implement neither Clone nor Copy; AfcState::seal takes
         `&mut SealCtx`.
+ R5 K6  the number that is carried over is the HPKE context's own next-to-use counter: aranya-crypto's
+        SealKey::seq() returns self.ctx.seq() (spideroak SealCtx::seq), not a shadow copy kept beside the
+        context (a copy of the *last used* number makes the re-derived key reuse it), and
+        SealKey::from_raw hands its `seq` argument to SealCtx::new.
 Not decided: the counter inside spideroak-crypto's SealKey (trusted); gaps under interleavings."""
 from rules.core import afc, pat
 from rules.core.facts import Operand, PASS_THROUGH
@@ -57,3 +61,16 @@ def run(F, rep, tier):
         rep.check(not cl, "%s|not-clone" % ty, "K10 type fact", "%s implements neither Clone nor Copy" % ty, "%s became Clone/Copy" % ty)
     for f in (seal, afc.impl_fn(F, "aranya_fast_channels::memory::State", "AfcState", "seal")):
         rep.check(f.local_ty(2).startswith("&mut"), "%s|ctx-by-mut-ref" % f.path.split("::")[-3], "K10 type fact", "seal takes the context by &mut: %s" % f.local_ty(2)[:60])
+    # R5
+    sq = F.fn("aranya_crypto::afc::keys::SealKey::seq")
+    inner = [c for c in sq.calls if c.path and c.path.endswith("hpke::SealCtx::seq")]
+    o = sq.origins(Operand(["c", {"l": 0, "p": []}]), through_calls="*")
+    fields = {x for x in o if x.startswith("field:")}
+    rep.check(len(inner) == 1 and "call:seq" in o and fields == {"field:ctx"}, "SealKey::seq|is-the-context-counter", "K6 provenance",
+              "SealKey::seq() is Seq(self.ctx.seq()) - the HPKE context's next sequence number",
+              "aranya-crypto's SealKey::seq() no longer returns the HPKE context's own counter (reads %s): ReadState::seal resumes a re-derived key from this value, so a shadow "
+              "copy that lags the context (e.g. the last *used* number) makes the next seal reuse a sequence number and nonce" % sorted(fields), sq.site())
+    fr = F.fn("aranya_crypto::afc::keys::SealKey::from_raw")
+    nw = [c for c in fr.calls if c.path and c.path.endswith("hpke::SealCtx::new")]
+    rep.check(len(nw) == 1 and "argname:seq" in fr.origins(nw[0].args[2], through_calls=()), "SealKey::from_raw|seq-reaches-the-context", "K6 provenance",
+              "SealKey::from_raw passes its seq argument to SealCtx::new", "SealKey::from_raw does not start the HPKE context at the given sequence number", fr.site())
